@@ -188,15 +188,40 @@ def gen_fuse(rng):
     return p
 
 
-def gen_swap(rng):
+def swap_variants(rng):
+    """(name, outer header, inner header): every position at which one loop's start, stop or step
+    can reference the other loop's variable (all must be refused by LoopSwapTrans), plus
+    rectangular controls (accepted).  i = 41 and j = 42 on entry, so `i - 40` etc. are small."""
+    a, b, c = rng.randint(3, 5), rng.randint(5, 8), rng.randint(1, 2)
+    return [
+        ("rect", f"do j = {c}, {a}", f"do i = 1, {b}"),
+        ("rect-steps", f"do j = 1, {a}, 2", f"do i = {b}, 1, -{c}"),
+        ("inner-start", f"do j = 1, {a}", f"do i = j, {b}"),
+        ("inner-stop", f"do j = 1, {a}", "do i = 1, j"),
+        ("inner-stop-expr", f"do j = 1, {a}", f"do i = 1, j + {c}"),
+        ("inner-step", f"do j = 1, {a}", f"do i = 1, {b}, j"),
+        ("inner-step-neg", f"do j = 1, {a - 1}", f"do i = {b}, 1, -j"),
+        ("inner-step-expr", f"do j = 1, {a - 1}", f"do i = 1, {b}, j + {c}"),
+        ("outer-start", f"do j = i - {LV_INIT['i'] - 1}, {a}", f"do i = 1, {b}"),
+        ("outer-stop", f"do j = 1, i - {LV_INIT['i'] - a}", f"do i = 1, {b}"),
+        ("outer-step", f"do j = 1, {b}, i - {LV_INIT['i'] - 2}", f"do i = 1, {a}"),
+    ]
+
+
+def gen_swap_systematic(rng):
+    """one program per variant of `swap_variants` (run on every check)"""
+    return [gen_swap(rng, forced=(ho, hi_)) for _, ho, hi_ in swap_variants(rng)]
+
+
+def gen_swap(rng, forced=None):
     p = make_prog(rng, with_m=True)
     ho, _ = header(rng, "j", allow_scalar=(rng.random() < 0.2), allow_arr=False)
     hi_, _ = header(rng, "i", allow_scalar=(rng.random() < 0.2), allow_arr=False)
     x = rng.random()
-    if x < 0.1:
-        hi_ = f"do i = 1, j"                       # triangular: refused
-    elif x < 0.15:
-        ho = f"do j = i - {LV_INIT['i'] - 1}, 6"     # outer bound mentions the inner variable
+    if forced is not None:
+        ho, hi_ = forced
+    elif x < 0.35:
+        _, ho, hi_ = rng.choice(swap_variants(rng)[2:])
 
     def sub(v):
         c = rng.choice([0, 0, 0, 0, -1, 1, 2])
@@ -221,13 +246,15 @@ def gen_swap(rng):
         return f"{rng.choice(p.scalars)} = {rhs}"
 
     body = ["  " + ho]
-    if rng.random() < 0.1:
+    if forced is None and rng.random() < 0.1:
         body.append("    " + asg().replace("i", "j"))
     body.append("    " + hi_)
+    if forced is not None:      # make every visited (i, j) observable
+        body.append(f"      m(i, j) = m(i, j) + {rng.randint(1, 9)} * i + j")
     for _ in range(rng.randint(1, 2)):
         body.append("      " + asg())
     body.append("    enddo")
-    if rng.random() < 0.1:
+    if forced is None and rng.random() < 0.1:
         body.append("    t = j")
     body.append("  enddo")
     p.body = body
